@@ -590,9 +590,38 @@ pub fn run(r: &mut Report) {
     let nscripts = if r.quick() { 3000 } else { 20_000 };
     let mut scripts: Vec<(Vec<SOp>, usize, usize, usize, u64)> = vec![];
     for i in 0..nscripts {
-        let nclients = 2 + i % 3;
-        let len = 6 + rng.below(24);
+        let nclients = 2 + i % 4;
+        let len = 6 + rng.below(30);
         scripts.push((gen_script(&mut rng, nclients, len), rng.below(4), nclients, [0usize, 2, 7][i % 3], rng.next()));
+    }
+    // structured scripts: build a queue of 3-5 waiters, cancel the waiter at every position (and
+    // pairs of positions), then release permits one by one and poll everybody after each release
+    for nclients in 3..=5usize {
+        for first in 0..nclients {
+            for second in [None, Some((first + 2) % nclients)] {
+                let mut sc: Vec<SOp> = vec![];
+                for c in 0..nclients {
+                    sc.push(SOp::Start(c, 1 + (c + first) % 2));
+                    sc.push(SOp::Poll(c));
+                }
+                sc.push(SOp::Cancel(first));
+                if let Some(x) = second {
+                    if x != first {
+                        sc.push(SOp::Cancel(x));
+                    }
+                }
+                for _ in 0..(2 * nclients) {
+                    sc.push(SOp::Release(1));
+                    for c in 0..nclients {
+                        sc.push(SOp::Poll(c));
+                    }
+                }
+                sc.push(SOp::Avail);
+                for k in [0usize, 2] {
+                    scripts.push((sc.clone(), 0, nclients, k, rng.next()));
+                }
+            }
+        }
     }
     let n_scripts = scripts.len();
     let n_scen = 4;
